@@ -61,8 +61,29 @@ func FromAttestation(at *spb.Attestation) ([]byte, error) {
 	return nil, ErrNotInExtras
 }
 
+// CheckCertTable returns an error if the header of a certificate table names a byte range that does
+// not lie within the table. abi.CertTable.Unmarshal adds an entry's offset and length in 32 bits, so
+// a range that wraps around 2^32 passes its bounds check and then makes it allocate up to 4 GiB and
+// slice out of range. Tables from untrusted sources must pass this check before they are unmarshaled.
+func CheckCertTable(table []byte) error {
+	entries, err := abi.ParseSnpCertTableHeader(table)
+	if err != nil {
+		return err
+	}
+	for i, entry := range entries {
+		if uint64(entry.Offset)+uint64(entry.Length) > uint64(len(table)) {
+			return fmt.Errorf("cert table entry %d specifies a byte range outside the certificate data block (size %d): offset=%d, length=%d",
+				i, len(table), entry.Offset, entry.Length)
+		}
+	}
+	return nil
+}
+
 // FromCertTable returns the contents of the certificate table entry for the GCE UEFI endorsement.
 func FromCertTable(table []byte) ([]byte, error) {
+	if err := CheckCertTable(table); err != nil {
+		return nil, err
+	}
 	t := new(abi.CertTable)
 	if err := t.Unmarshal(table); err != nil {
 		return nil, err
